@@ -2932,6 +2932,7 @@ class RoAffine:
 
     def __mul__(self, other):
 
+        other = check_numeric(other)
         new_affine = self.affine * other
         if isinstance(other, Real):
             other = np.array([other])
@@ -2942,6 +2943,7 @@ class RoAffine:
 
     def __rmul__(self, other):
 
+        other = check_numeric(other)
         new_affine = other * self.affine
         if isinstance(other, Real):
             other = np.array([other])
